@@ -70,6 +70,7 @@ type agentEnv struct {
 	cfg                 *vlib.Config
 	s                   *store
 	iface               *Store
+	restoreWd           string
 }
 
 type seedUser struct {
@@ -105,6 +106,9 @@ func writeUser(base string, cfg *vlib.Config, u seedUser) error {
 	return os.WriteFile(filepath.Join(base, u.Name+ext), content, 0o600)
 }
 
+// relativeBaseDir: the next agents are configured with a relative base directory (set by a test around newAgentEnv)
+var relativeBaseDir bool
+
 func newAgentEnv(cfg *vlib.Config, users []seedUser, upgrades, policyType, policyCond, hooksDir string) (*agentEnv, error) {
 	root, err := os.MkdirTemp("", "ag-")
 	if err != nil {
@@ -119,7 +123,16 @@ func newAgentEnv(cfg *vlib.Config, users []seedUser, upgrades, policyType, polic
 			return nil, err
 		}
 	}
-	if err := cfg.WriteYAML(e.cfgFile, e.base); err != nil {
+	yamlBase := e.base
+	if relativeBaseDir {
+		// the configuration names the base directory relative to the process's working directory (as the shipped example configuration
+		// does): the working directory becomes the scratch root for the life time of this agent
+		if wd, err := os.Getwd(); err == nil && os.Chdir(root) == nil {
+			e.restoreWd = wd
+			yamlBase = "store"
+		}
+	}
+	if err := cfg.WriteYAML(e.cfgFile, yamlBase); err != nil {
 		return nil, err
 	}
 	if e.s, err = NewStore(e.cfgFile, upgrades, policyType, policyCond, hooksDir); err != nil {
@@ -129,4 +142,9 @@ func newAgentEnv(cfg *vlib.Config, users []seedUser, upgrades, policyType, polic
 	return e, nil
 }
 
-func (e *agentEnv) cleanup() { os.RemoveAll(e.root) }
+func (e *agentEnv) cleanup() {
+	if e.restoreWd != "" {
+		os.Chdir(e.restoreWd)
+	}
+	os.RemoveAll(e.root)
+}
